@@ -174,6 +174,31 @@ func (s *Signer) signer() signutil.Signer {
 	return s.S
 }
 
+// extraHeaderSigner signs with further members in the protected header (they are part of the signing input, so the
+// signature is valid for them).
+type extraHeaderSigner struct {
+	signutil.Signer
+	extra map[string]interface{}
+}
+
+func (e extraHeaderSigner) Headers() jws.Headers {
+	h := jws.Headers{}
+	for k, v := range e.Signer.Headers() {
+		h[k] = v
+	}
+	for k, v := range e.extra {
+		h[k] = v
+	}
+	return h
+}
+
+// SignWithHeaders signs the model with further protected header members.
+func (s *Signer) SignWithHeaders(model interface{}, extra map[string]interface{}) string {
+	c, err := signutil.SignModel(model, extraHeaderSigner{Signer: s.signer(), extra: extra})
+	must(err, "SignModel")
+	return c
+}
+
 func (s *Signer) Sign(model interface{}) string {
 	c, err := signutil.SignModel(model, s.signer())
 	must(err, "SignModel")
